@@ -20,11 +20,21 @@ pub fn run_c02(ctx: &Ctx) {
     run_l2_part(ctx, "l2", Prop::C02, P_C02, ctx.tier.scale(240_000, 10),
         &[("saturated", 0.5), ("limit-constrained", 0.2), ("race-done", 0.1)],
         "some quiescent state had a non-empty backlog with every worker at its limit (the limit constrained dispatch), or a finish-before-count race happened on a saturated worker");
-    run_l4_part(ctx, crate::l4::Prop::C02, crate::l4::gen::P { pause: 0, inject: 0, panic: 0, stop: 0, busy: 0, uds: false, max_limit: 3, taskpanic: 1 }, ctx.tier.scale(400, 4), &[("saturated-with-waiting", 0.2)], "every worker at its limit with a client still waiting");
+    {
+        ctx.run_corpus::<crate::l3::Case>("l3", |c| crate::l3::run_case(c, crate::l3::Prop::C02));
+        let rule = format!("{RULE_L3}; here: limits 1..3, 1..2 services, readiness failures (the service is re-created inside the live worker) and pending phases while the worker is at its limit; oracle: at every dispatch the worker has fewer than max_concurrent_connections connections in progress (received and waiting for their service call, or handler future not yet dropped); non-trivial = some dispatch brought the worker to its limit");
+        ctx.run_random(
+            Part::new("l3", &rule, ctx.tier.scale(40_000, 10)).floors(&[("dispatch-reaches-limit", 0.4), ("restart", 0.1), ("restart-while-saturated", 0.04)]).shrink_iters(4000),
+            l3gen::c02_strategy,
+            |c| crate::l3::run_case(c, crate::l3::Prop::C02),
+        );
+    }
+    run_l4_part(ctx, crate::l4::Prop::C02, crate::l4::gen::P { pause: 0, inject: 0, panic: 0, stop: 0, busy: 0, uds: false, max_limit: 3, taskpanic: 1, abort: 0 }, ctx.tier.scale(400, 4), &[("saturated-with-waiting", 0.2)], "every worker at its limit with a client still waiting");
 }
 
 pub fn replay_c02(ctx: &Ctx, v: &Value) -> i32 {
     match v["part"].as_str().unwrap_or("") {
+        p if p.starts_with("l3") => ctx.replay::<crate::l3::Case>(v, |c| crate::l3::run_case(c, crate::l3::Prop::C02)),
         p if p.starts_with("l4") => replay_l4(ctx, v, crate::l4::Prop::C02),
         _ => replay_l2(ctx, v, Prop::C02),
     }
@@ -75,7 +85,7 @@ pub fn run_c03(ctx: &Ctx) {
     run_l2_part(ctx, "l2-with-faults", Prop::C03, P_C03_FAULT, ctx.tier.scale(120_000, 10),
         &[("fault-discovered", 0.4), ("finish-while-saturated-with-backlog", 0.1), ("replace", 0.3)],
         "as above, in histories where a worker died and was replaced (a live worker below its limit must still be used)");
-    run_l4_part(ctx, crate::l4::Prop::C03, crate::l4::gen::P { pause: 0, inject: 0, panic: 0, stop: 0, busy: 0, uds: false, max_limit: 3, taskpanic: 2 }, ctx.tier.scale(400, 4), &[("release-while-saturated", 0.2), ("handler-panic-while-saturated", 0.08)], "a held connection is released while every worker is at its limit and a client waits");
+    run_l4_part(ctx, crate::l4::Prop::C03, crate::l4::gen::P { pause: 0, inject: 0, panic: 0, stop: 0, busy: 0, uds: false, max_limit: 3, taskpanic: 2, abort: 0 }, ctx.tier.scale(400, 4), &[("release-while-saturated", 0.2), ("handler-panic-while-saturated", 0.08)], "a held connection is released while every worker is at its limit and a client waits");
 }
 
 pub fn replay_c03(ctx: &Ctx, v: &Value) -> i32 {
@@ -177,6 +187,8 @@ pub fn run_c04(ctx: &Ctx) {
         ">= 2 workers and more dispatches than workers; no worker ever saturated: any W consecutive dispatches go to W distinct workers");
     run_l2_part(ctx, "l2-after-restart", Prop::C04, P_C04_FAULT, ctx.tier.scale(120_000, 10), &[("fault-discovered", 0.4), ("replace", 0.4), ("saturated", 0.5)],
         "a worker was killed, replaced and rejoined, and a worker was saturated afterwards: once every fault is resolved a saturated worker receives nothing (handle positions and worker indices have diverged)");
+    run_l2_part(ctx, "l2-after-restart-unsaturated", Prop::C04, P_C04_FAULT_UNSAT, ctx.tier.scale(80_000, 10), &[("fault-discovered", 0.3), ("replace", 0.3), ("pair-rule-after-restart", 0.12)],
+        ">= 2 workers and more dispatches than workers; here a worker is killed, replaced and rejoins with a limit that never constrains (64): two consecutive connections go to two different workers whenever the rotation held at least two handles at the first and no handle was removed in between (pair rule, evaluated across the moment the replacement rejoins)");
     run_l2_part(ctx, "l2-skipping", Prop::C04, P_C04_SAT, ctx.tier.scale(120_000, 10), &[("dispatches>W", 0.4), ("saturated", 0.5)],
         ">= 2 workers and more dispatches than workers; with a stable set S of saturated workers the others are served round-robin and S receives nothing");
     // (c) end-to-end: worker threads seen by the service calls of a real server
@@ -204,7 +216,7 @@ pub fn run_c05(ctx: &Ctx) {
     run_l2_part(ctx, "l2", Prop::C05, P_C05, ctx.tier.scale(200_000, 10),
         &[("pause", 0.4), ("inject-fatal", 0.2), ("inject-per-connection", 0.2), ("uds", 0.4)],
         "the schedule contains a pause or an injected accept error (fatal or per-connection)");
-    run_l4_part(ctx, crate::l4::Prop::C05, crate::l4::gen::P { pause: 3, inject: 3, panic: 0, stop: 0, busy: 0, uds: true, max_limit: 4, taskpanic: 0 }, ctx.tier.scale(200, 4), &[("pause", 0.4), ("inject", 0.4), ("backoff-under-load", 0.08)], "the script contains a pause or an injected accept error (exercises the real poll_with loop, which the stepped driver duplicates)");
+    run_l4_part(ctx, crate::l4::Prop::C05, crate::l4::gen::P { pause: 3, inject: 3, panic: 0, stop: 0, busy: 0, uds: true, max_limit: 4, taskpanic: 0, abort: 0 }, ctx.tier.scale(200, 4), &[("pause", 0.4), ("inject", 0.4), ("backoff-under-load", 0.08)], "the script contains a pause or an injected accept error (exercises the real poll_with loop, which the stepped driver duplicates)");
 }
 
 pub fn replay_c05(ctx: &Ctx, v: &Value) -> i32 {
@@ -222,7 +234,7 @@ pub fn run_c08(ctx: &Ctx) {
     run_l2_part(ctx, "l2", Prop::C08, P_C08, ctx.tier.scale(200_000, 10),
         &[("fault-discovered", 0.4), ("replace", 0.3), ("late-finish-of-dead-worker", 0.05), ("kill-saturated", 0.03), ("kill-idle", 0.2)],
         "a kill followed by a connect + step that discovers the fault");
-    run_l4_part(ctx, crate::l4::Prop::C08, crate::l4::gen::P { pause: 0, inject: 0, panic: 4, stop: 0, busy: 0, uds: false, max_limit: 2, taskpanic: 1 }, ctx.tier.scale(300, 4), &[("worker-panic", 0.3)], "a worker was killed by a panic inside Service::call (guards dropped while unwinding)");
+    run_l4_part(ctx, crate::l4::Prop::C08, crate::l4::gen::P { pause: 0, inject: 0, panic: 4, stop: 0, busy: 0, uds: false, max_limit: 2, taskpanic: 1, abort: 0 }, ctx.tier.scale(300, 4), &[("worker-panic", 0.3), ("connects-right-after-fault", 0.15)], "a worker was killed by a panic inside Service::call (guards dropped while unwinding; service instances may take 500 ms to drop; connections that arrive right after the fault must not be discarded while another worker lives)");
 }
 
 pub fn replay_c08(ctx: &Ctx, v: &Value) -> i32 {
@@ -248,7 +260,8 @@ pub fn run_c01(ctx: &Ctx) {
         l3gen::c07_strategy,
         |c| crate::l3::run_case(c, crate::l3::Prop::C01),
     );
-    run_l4_part(ctx, crate::l4::Prop::C01, crate::l4::gen::P { pause: 1, inject: 0, panic: 0, stop: 0, busy: 0, uds: true, max_limit: 3, taskpanic: 1 }, ctx.tier.scale(300, 4), &[("served-by>=2-workers", 0.2), ("registered-by-address", 0.15), ("registered-by-address-list", 0.15)], "connections were served by at least two worker threads or two listeners exist (each connection is served exactly once by the service of the listener it connected to)");
+    run_l4_part(ctx, crate::l4::Prop::C01, crate::l4::gen::P { pause: 1, inject: 0, panic: 0, stop: 0, busy: 0, uds: true, max_limit: 3, taskpanic: 1, abort: 2 }, ctx.tier.scale(300, 4), &[("served-by>=2-workers", 0.2), ("registered-by-address", 0.15), ("registered-by-address-list", 0.15), ("accounting-with-client-resets", 0.2), ("client-reset-in-backlog", 0.1)], "connections were served by at least two worker threads or two listeners exist (each connection is served exactly once by the service of the listener it connected to)");
+    run_l4_part_named(ctx, "l4-faults", crate::l4::Prop::C01, crate::l4::gen::P { pause: 0, inject: 0, panic: 4, stop: 0, busy: 0, uds: false, max_limit: 2, taskpanic: 0, abort: 0 }, ctx.tier.scale(160, 4), &[("worker-panic", 0.3), ("connects-right-after-fault", 0.15)], "a worker was killed by a panic inside Service::call and connections arrived right after it (with two or more workers none of them may be discarded; service instances may take 500 ms to drop while the worker unwinds)");
 }
 
 pub fn replay_c01(ctx: &Ctx, v: &Value) -> i32 {
@@ -290,6 +303,30 @@ pub mod l3gen {
             prop::collection::vec(op, 1..10),
         )
             .prop_map(|(services, factory_delay, initial, ops)| Case { services, limit: 8, shutdown_timeout_s: 30, factory_delay, initial, ops: ops.into_iter().flatten().collect() })
+    }
+
+    /// C02 at the worker: small limits, many connections, readiness failures (service restarts
+    /// inside a live worker) and pending phases while the worker is at its limit
+    pub fn c02_strategy() -> impl Strategy<Value = Case> {
+        let op = prop_oneof![
+            6 => sel().prop_map(|l| vec![Op::Dispatch { l }]),
+            6 => Just(vec![Op::Poll]),
+            1 => sel().prop_map(|s| vec![Op::MakeReady { s }]),
+            1 => sel().prop_map(|s| vec![Op::MakePending { s }]),
+            1 => sel().prop_map(|s| vec![Op::FailNext { s }]),
+            3 => sel().prop_map(|k| vec![Op::FinishConn { k }]),
+            // fill the worker, more clients behind, then a readiness failure: the restart must not re-open it
+            3 => (sel(), sel(), sel(), sel()).prop_map(|(l, l2, l3, s)| vec![Op::Dispatch { l }, Op::Dispatch { l: l2 }, Op::Poll, Op::Dispatch { l: l3 }, Op::Dispatch { l }, Op::FailNext { s }, Op::Poll, Op::Poll, Op::Poll]),
+            // the same with a pending phase
+            2 => (sel(), sel(), sel(), sel()).prop_map(|(l, l2, l3, s)| vec![Op::Dispatch { l }, Op::Dispatch { l: l2 }, Op::Poll, Op::Dispatch { l: l3 }, Op::MakePending { s }, Op::Poll, Op::MakeReady { s }, Op::Poll]),
+        ];
+        (
+            1usize..3,
+            1usize..4,
+            prop::collection::vec(0u8..3, 3),
+            prop::collection::vec(op, 1..8),
+        )
+            .prop_map(|(services, limit, factory_delay, ops)| Case { services, limit, shutdown_timeout_s: 30, factory_delay, initial: vec![SvcState::Ready; 3], ops: ops.into_iter().flatten().collect() })
     }
 
     pub fn c06_strategy() -> impl Strategy<Value = Case> {
@@ -354,7 +391,11 @@ pub fn run_c06(ctx: &Ctx) {
         l3gen::c06_strategy,
         |c| l3::run_case(c, l3::Prop::C06),
     );
-    run_l4_part(ctx, crate::l4::Prop::C06, crate::l4::gen::P { pause: 1, inject: 0, panic: 0, stop: 1, busy: 2, uds: false, max_limit: 3, taskpanic: 1 }, ctx.tier.scale(96, 4), &[("worker-thread-busy", 0.04), ("stop-with-held-connections", 0.25), ("graceful-stop", 0.2), ("forced-stop", 0.2)], "a stop was issued while connections were held open");
+    run_l4_part(ctx, crate::l4::Prop::C06, crate::l4::gen::P { pause: 1, inject: 0, panic: 0, stop: 1, busy: 2, uds: false, max_limit: 3, taskpanic: 1, abort: 0 }, ctx.tier.scale(96, 4), &[("worker-thread-busy", 0.04), ("stop-with-held-connections", 0.25), ("graceful-stop", 0.2), ("forced-stop", 0.2)], "a stop was issued while connections were held open");
+    // the accept thread's part: a stop command queued behind other commands is processed (the
+    // server joins the accept thread, so a stop it never sees never completes)
+    run_l2_part(ctx, "l2-commands", Prop::C06, P_C06, ctx.tier.scale(40_000, 10), &[("stop", 0.25), ("ctl-burst", 0.2)],
+        "a stop command was issued, alone or behind a burst of 18..40 pause/resume commands queued at once: stepped to quiescence, the accept loop has exited and left no command unprocessed");
     run_c06_signals(ctx);
 }
 
@@ -385,6 +426,7 @@ pub fn replay_c06(ctx: &Ctx, v: &Value) -> i32 {
     match v["part"].as_str().unwrap_or("") {
         p if p.starts_with("signals") => ctx.replay::<crate::sig::Case>(v, crate::sig::check_case),
         p if p.starts_with("l4") => replay_l4(ctx, v, crate::l4::Prop::C06),
+        p if p.starts_with("l2") => replay_l2(ctx, v, Prop::C06),
         _ => ctx.replay::<crate::l3::Case>(v, |c| crate::l3::run_case(c, crate::l3::Prop::C06)),
     }
 }
@@ -396,8 +438,8 @@ pub fn run_c09(ctx: &Ctx) {
     ctx.assume("thread interleavings are sampled by the OS scheduler and only perturbed by generated jitter; hangs are judged by a 10 s watchdog (typical latencies are below 5 ms); a second stop issued by another thread may legitimately win");
     ctx.run_corpus::<rt::C09Case>("threads", rt::check_c09);
     ctx.run_random(
-        Part::new("threads", "(0..3 arbiters each stopped-and-joined early / detached / idle / busy yielding / busy blocking / dead-but-still-registered (stopped with a slowly dropping task queued behind the stop), stop issued from the system thread before run, a system task, an arbiter task or a foreign thread, exit codes incl. 0 and i32::MIN, optional second stop sequenced by the same thread or racing from another, run() or run_with_code(), jitter) on a fresh System per case; oracle: returned code is the first stop's (either when racing), run() is Ok iff the code is 0, every arbiter alive at the stop can be joined / drops its parked task; non-trivial = an arbiter alive at the stop and the stop not issued before run, or two stops", ctx.tier.scale(4_000, 8))
-            .floors(&[("arbiter-alive-at-stop", 0.5), ("two-stops", 0.3), ("dead-but-registered-arbiter", 0.2), ("stop-from-arbiter", 0.1)])
+        Part::new("threads", "(0..3 arbiters each stopped-and-joined early / detached / idle / busy yielding / busy blocking / busy blocking with 33..160 further commands queued behind the blocking one so that the Stop command arrives at the end of a long queue / dead-but-still-registered (stopped with a slowly dropping task queued behind the stop), stop issued from the system thread before run, a system task, an arbiter task or a foreign thread, exit codes incl. 0 and i32::MIN, optional second stop sequenced by the same thread or racing from another, run() or run_with_code(), jitter) on a fresh System per case; oracle: returned code is the first stop's (either when racing), run() is Ok iff the code is 0, every arbiter alive at the stop can be joined / drops its parked task; non-trivial = an arbiter alive at the stop and the stop not issued before run, or two stops", ctx.tier.scale(4_000, 8))
+            .floors(&[("arbiter-alive-at-stop", 0.5), ("two-stops", 0.3), ("dead-but-registered-arbiter", 0.2), ("stop-from-arbiter", 0.1), ("stop-behind-long-queue", 0.2)])
             .shrink_iters(300),
         rt::gen::c09,
         rt::check_c09,
@@ -413,8 +455,8 @@ pub fn run_c10(ctx: &Ctx) {
     ctx.assume("sends are totally ordered by hand-over between the harness and its sender threads, so FIFO and 'nothing sent after stop() returned ever starts' are asserted only where happens-before is established by the harness");
     ctx.run_corpus::<rt::C10Case>("threads", rt::check_c10);
     ctx.run_random(
-        Part::new("threads", "command scripts (spawn of tasks that complete / yield / pend forever / panic / send nested commands through Arbiter::current() / hold the arbiter thread while further commands are queued and then send a nested command / stop their own arbiter and then spawn; spawn_fn; sync markers; stop; bursts of 100-280 functions) issued through the owner handle and cloned handles on up to two other threads with hand-over, against a thread arbiter or the system arbiter; oracle on the start log (id, thread, system): strictly increasing ids in start order, no id twice, every start on the arbiter thread with the creating system, everything sent before a sync marker started before it ran, nothing sent after stop() returned ever starts, after join() spawn/stop return false and nothing starts, block_on returns its output; non-trivial = a stop that is not last with commands after it, or >= 2 senders, or a panicking/pending task", ctx.tier.scale(4_000, 8))
-            .floors(&[("senders>=2", 0.4), ("sent-after-stop", 0.25), ("gated", 0.1), ("system-arbiter", 0.1)])
+        Part::new("threads", "command scripts, in 40% of the cases on a thread on which an earlier System has already been created, run and stopped (spawn of tasks that complete / yield / pend forever / panic / send nested commands through Arbiter::current() / hold the arbiter thread while further commands are queued and then send a nested command / stop their own arbiter and then spawn; spawn_fn; sync markers; stop; bursts of 100-280 functions) issued through the owner handle and cloned handles on up to two other threads with hand-over, against a thread arbiter or the system arbiter; oracle on the start log (id, thread, system): strictly increasing ids in start order, no id twice, every start on the arbiter thread with the creating system, everything sent before a sync marker started before it ran, nothing sent after stop() returned ever starts, after join() spawn/stop return false and nothing starts, block_on returns its output; non-trivial = a stop that is not last with commands after it, or >= 2 senders, or a panicking/pending task", ctx.tier.scale(4_000, 8))
+            .floors(&[("senders>=2", 0.4), ("sent-after-stop", 0.25), ("gated", 0.1), ("system-arbiter", 0.1), ("second-system-on-this-thread", 0.2), ("current-arbiter-used-in-second-system", 0.02)])
             .shrink_iters(300),
         rt::gen::c10,
         rt::check_c10,
@@ -427,13 +469,19 @@ pub fn replay_c10(ctx: &Ctx, v: &Value) -> i32 {
 
 // ---- L4: end-to-end through the public API -----------------------------------------------------
 
-const RULE_L4: &str = "L4: op scripts (connect a client that sends its id / release a held connection / settle = wait until the server has taken everything it has capacity for / pause / resume / inject an accept error / make the next Service::call panic / finish a held connection by a panic inside its handler future / sleep / stop graceful|forced, once or twice, future polled or dropped) against a real Server (1..3 workers, limit 1..4, 1..2 listeners TCP/UDS registered through listen()/listen_uds(), bind()/bind_uds() or bind() with a two-address list (two sockets, one factory; clients alternate between the addresses), shutdown_timeout 1..2 s) with real threads and real time; the service counts connections in progress per worker thread, greets the client and holds the connection until released; time bounds of 5 s (re-judged twice alone before counting)";
+const RULE_L4: &str = "L4: op scripts (connect a client that sends its id / release a held connection / settle = wait until the server has taken everything it has capacity for / pause / resume / inject an accept error / make the next Service::call panic / finish a held connection by a panic inside its handler future / connect and reset at once (RST; still accepted, must still reach Service::call) / sleep / stop graceful|forced, once or twice, future polled or dropped) against a real Server (1..3 workers, limit 1..4, 1..2 listeners TCP/UDS registered through listen()/listen_uds(), bind()/bind_uds() or bind() with a two-address list (two sockets, one factory; clients alternate between the addresses), shutdown_timeout 1..2 s) with real threads and real time; the service counts connections in progress per worker thread, greets the client and holds the connection until released; time bounds of 5 s (re-judged twice alone before counting)";
 
 fn run_l4_part(ctx: &Ctx, prop: crate::l4::Prop, p: crate::l4::gen::P, cases: u64, floors: &[(&str, f64)], nt: &str) {
+    run_l4_part_named(ctx, "l4", prop, p, cases, floors, nt)
+}
+
+fn run_l4_part_named(ctx: &Ctx, name: &str, prop: crate::l4::Prop, p: crate::l4::gen::P, cases: u64, floors: &[(&str, f64)], nt: &str) {
     use crate::l4;
-    ctx.run_corpus::<l4::Case>("l4", |c| l4::run_case(c, prop));
+    if name == "l4" {
+        ctx.run_corpus::<l4::Case>("l4", |c| l4::run_case(c, prop));
+    }
     let rule = format!("{RULE_L4}; non-trivial = {nt}");
-    ctx.run_random(Part::new("l4", &rule, cases).floors(floors).shards(8).shrink_iters(8), move || l4::gen::strategy(p), move |c| l4::run_case(c, prop));
+    ctx.run_random(Part::new(name, &rule, cases).floors(floors).shards(8).shrink_iters(8), move || l4::gen::strategy(p), move |c| l4::run_case(c, prop));
 }
 
 fn replay_l4(ctx: &Ctx, v: &Value, prop: crate::l4::Prop) -> i32 {
